@@ -426,3 +426,28 @@ def returned_name(func: FuncInfo, default: Optional[str] = None) -> Optional[str
     if not rets:
         return default
     return sorted(rets, key=lambda r: r.lineno)[-1].value.id
+
+
+def every_iteration(func: FuncInfo, loop: ast.AST, inner_nodes: Sequence[ast.AST]) -> bool:
+    """Every pass through the body of *loop* executes one of *inner_nodes* (exception edges aside): no ``continue``, ``break``,
+    ``return`` or branch lets an iteration end without it."""
+    from .cfg import cfg_of
+    g = cfg_of(func.node)
+    heads = set(g.nodes_of(loop))
+    targets = {i for x in inner_nodes for i in cfg_node_of(func, x)}
+    if not loop.body or not targets:
+        return False
+    inside = {id(x) for x in ast.walk(loop)}
+    starts = [d for h in heads for d, lab in g.succ[h] if lab == "loop"]
+    if not starts:
+        return False
+    r = g.reachable([s_ for s_ in starts if s_ not in targets], blocked_nodes=targets, follow_exc=False)
+    for i in r:
+        if i in heads:
+            return False
+        if i == g.raise_exit:
+            continue            # an explicit raise refuses the whole input: nothing is silently skipped
+        n = g.nodes[i]
+        if n.ast is None or id(n.ast) not in inside:
+            return False
+    return True
